@@ -3,6 +3,40 @@
 process-compose (or harness) frames of the two conflicting accesses, without line numbers."""
 import re, sys
 
+def reports(text):
+    """[(fn, file, line), (fn, file, line)] per race report: the innermost process-compose (or harness)
+    frame of each of the two conflicting accesses"""
+    out = []
+    blocks = text.split('WARNING: DATA RACE')[1:]
+    for blk in blocks:
+        blk = blk.split('==================')[0]
+        secs = re.split(r'\n(?=(?:Read|Write|Previous read|Previous write|Atomic|Previous atomic)[^\n]* by [^\n]*:\n)', '\n' + blk)
+        accesses = [s for s in secs if re.match(r'\s*(Read|Write|Previous|Atomic)', s)]
+        sides = []
+        for s in accesses[:2]:
+            lines = s.splitlines()[1:]
+            found = None
+            for i, ln in enumerate(lines):
+                ln = ln.strip()
+                if ln.startswith('Goroutine'):
+                    break
+                if not ln or ln.startswith('/') or not ln.endswith(')'):
+                    continue
+                f = ln.rsplit('(', 1)[0]
+                if 'process-compose/src/' in f or 'verif/harness/' in f:
+                    name = re.sub(r'^.*process-compose/src/', '', f)
+                    name = re.sub(r'^.*verif/harness/', 'harness/', name)
+                    name = re.sub(r'(\.func\d+|\.gowrap\d+|-fm|\.\d+)+$', '', name)
+                    loc = lines[i + 1].strip() if i + 1 < len(lines) else ''
+                    m = re.match(r'(/\S+\.go):(\d+)', loc)
+                    found = (name, m.group(1) if m else '', int(m.group(2)) if m else 0)
+                    break
+            sides.append(found or ('runtime/other', '', 0))
+        if len(sides) == 2:
+            out.append(sides)
+    return out
+
+
 def signatures(text):
     out = {}
     blocks = text.split('WARNING: DATA RACE')[1:]
